@@ -21,8 +21,10 @@ MANIFEST = dict(
          "the operation right before the request is an approve naming this very transaction (used once).  "
          "C08_overflow_refused (checked sums).  C08_fee_velocity instantiates C12_window for the fee control: for every policy (any maximum "
          "feerate), every finite fee limit and every history of on-chain requests, node-entry writes and restarts, "
-         "the true non-beneficial values accepted in any window sum to at most the limit.  C08_msat_wrap_refuted keeps "
-         "the witness against check_onchain_tx as found (value*1000 in plain u64; repaired in /repo by 06905f5) and the "
+         "the true non-beneficial values accepted in any window sum to at most the limit.  The fee control is the configured one under either validator factory: sequences of "
+         "spends whose fees reach the configured limit exactly and then pass it are run against the history model "
+         "started from the configured spec, with a window monitor over the harness's own record.  "
+         "C08_msat_wrap_refuted keeps the witness against check_onchain_tx as found (value*1000 in plain u64; repaired in /repo by 06905f5) and the "
          "witness is replayed on the real code in debug and release on every run.  The glue from the wire is inside the check: SignWithdrawal requests go "
          "through as_vec / from_vec and RootHandler::handle, and the monitor judges the reply by the TRUE values of the "
          "previous outputs (consensus-verified signatures).  The model is run against the real Node::check_onchain_tx, "
@@ -79,14 +81,15 @@ def run(res):
     n_val = 2400 if quick else 25000
     n_handler = 900 if quick else 12000
     n_memo = 300 if quick else 4000
-    node, val, hand, memo, stats, aborted = [], [], [], [], [], []
+    n_fee = 480 if quick else 6000
+    node, val, hand, memo, feer, stats, aborted = [], [], [], [], [], [], []
     chunks = 6 if quick else 25
     for prof in profiles:
         # in chunks: a panic inside check_onchain_tx while the state lock is held turns into a process abort
         # (second panic in the deferred trace), which must not hide what the other cases show
         for k in range(chunks):
             for sub, n, sink in (("node", n_node, node), ("val", n_val, val), ("handler", n_handler, hand),
-                                 ("memo", n_memo, memo)):
+                                 ("memo", n_memo, memo), ("feerun", n_fee, feer)):
                 try:
                     r = lib.run_harness("onchain", sub, res.seed * 1000 + k, n // chunks, res.tier, profile=prof)
                 except lib.Fail as e:
@@ -128,6 +131,9 @@ def run(res):
     vterms = [c["coq"] for c in val]
     fn = lib.coq_failures(IMPORTS, "node_case", "check_node", nterms, "c08_node")
     fv = lib.coq_failures(IMPORTS, "val_case", "check_val", vterms, "c08_val")
+    fsteps = [c for c in feer if c["coq"]]
+    fterms = [c["coq"] for c in fsteps]
+    ff = lib.coq_failures(IMPORTS, "hist_case", "check_hist", fterms, "c08_hist")
     mterms = [c["coq"] for c in memo]
     fm = lib.coq_failures(IMPORTS, "memo_case", "check_memo", mterms, "c08_memo")
     hsteps = [c for c in hand if c["coq"]]
@@ -192,6 +198,24 @@ def run(res):
                       {"correspondence": "onchain-val", "theorem": "C08_ok_per_tag", "case": _strip(c),
                        "model": model[-400:]}, has_input=False)
 
+    mon_fee = [c for c in feer if c["monitor_violation"]]
+    mon_fee.sort(key=lambda c: 0 if any("sum to" in m for m in c["monitor_violation"]) else 1)
+    for c in mon_fee[:2]:
+        res.violation("fee velocity over a sequence of spends (%s): " % c["validator_factory"] + "; ".join(c["monitor_violation"][-2:]),
+                      {"domain": "onchain-feerun", "seed": res.seed, "case": _strip(c)})
+    shown = 0
+    for j in ff:
+        c = fsteps[j]
+        if c["monitor_violation"]:
+            continue
+        if shown >= 2:
+            break
+        shown += 1
+        model = lib.coq_eval(IMPORTS, "hist_model (%s)" % fterms[j], "c08_show")
+        res.violation("a history of on-chain requests and restarts disagrees with Model.Onchain.ostep run from the configured "
+                      "fee velocity spec (correspondence onchain-feerun); per operation (check code, control in memory)",
+                      {"correspondence": "onchain-feerun", "theorem": "C08_fee_velocity", "case": _strip(c),
+                       "model": model[-900:]}, has_input=False)
     mon_memo = [c for c in memo if c["monitor_violation"]]
     mon_memo.sort(key=lambda c: 0 if any("larger input" in m for m in c["monitor_violation"]) else 1)
     for c in mon_memo[:2]:
@@ -252,8 +276,10 @@ def run(res):
             nontrivial.add(c["coq"][0])
     for c in memo:
         nontrivial.add(c["coq"] + c["transactions"][0]["txid"])
+    for c in fsteps:
+        nontrivial.add(c["coq"])
     cov.update({
-        "evaluations": len(nterms) + len(vterms) + len(hand) + len(memo),
+        "evaluations": len(nterms) + len(vterms) + len(hand) + len(memo) + len(feer),
         "distinct_nontrivial": len(nontrivial),
         "rule": "node: a fresh real node per case (own policy: max_feerate_per_kw in {253, 1000, 25000, 333333, 4e9, "
                 "2^32-2, 2^32-1}, fee velocity hourly/daily/unlimited with limits 1e7..1e15 msat, filter rule sets, dev "
@@ -281,17 +307,25 @@ def run(res):
                 "0 / bound-1 / bound / bound+1, hidden value 1 .. 1e8 sat) encoded with as_vec, decoded with from_vec, "
                 "handled by RootHandler with a recording approver; the reply is checked for on-chain validity against the "
                 "TRUE previous outputs (consensus verification; taproot by rule) and the monitor uses the true values. "
+                "feerun: one node per case under SimpleValidatorFactory or OnchainValidatorFactory over it (2/3), fee "
+                "velocity hourly 1e6 / 1e7 / 7.7e7 / 1e9, daily 5e6 / 5e7 / 123456000 / 1e9 msat or unlimited, 3-8 plain "
+                "spends (check_onchain_tx, unchecked_sign_onchain_tx iff accepted) whose fees are pieces of the limit "
+                "(quarters summing to it exactly then 1 sat more; half+1 twice; the limit then 1; limit+1; random), "
+                "pauses of 0 / bucket-1 / bucket / window-1 / window / beyond, restarts from the store; the Coq history "
+                "model starts from the CONFIGURED spec and the window monitor sums the fees the harness itself recorded "
+                "as signed; node and handler sub-domains also run half of their nodes under the on-chain factory and "
+                "compare the control's limit and shape with the configuration. "
                 "memo: the repository's approvers (MemoApprover over Negative / Velocity<Negative> / Positive, Negative, "
                 "WarningPositive) under RootHandler: approve(A), request A, A again, then look-alikes of A (same outputs "
                 "with a larger / another / an additional input, another locktime, another sequence, one output value "
                 "lowered), then random approve / request operations; every transaction pays an unknown destination. "
                 "Non-trivial = at least two outputs or a funded channel (val: and no panic); distinct by full Coq term.",
         "samples": [_strip(node[0]) if node else None, _strip(val[0]) if val else None],
-        "traces_validated_against_impl": len(nterms) + len(vterms) + len(hand) + len(memo),
-        "correspondence_disagreements": len(fn) + len(fv) + len(fh) + len(dec_dis) + len(fm),
+        "traces_validated_against_impl": len(nterms) + len(vterms) + len(hand) + len(memo) + len(feer),
+        "correspondence_disagreements": len(fn) + len(fv) + len(fh) + len(dec_dis) + len(fm) + len(ff),
         "disagreements_by_domain": {"node": len(fn), "val": len(fv), "handler": len(fh), "handler-decode": len(dec_dis),
-                                    "memo": len(fm)},
-        "monitor_failures": len(mon_node) + len(mon_val) + len(mon_hand) + len(mon_memo),
+                                    "memo": len(fm), "feerun": len(ff)},
+        "monitor_failures": len(mon_node) + len(mon_val) + len(mon_hand) + len(mon_memo) + len(mon_fee),
         "observed_distribution_node_check(0 ok,1 panic,2 unknown,100+tag)": dist_node,
         "observed_distribution_val(0 ok,1 panic,2 unknown,100+tag)": dist_val,
         "profiles": profiles,
